@@ -124,6 +124,34 @@ Section DoList.
   Variable rootk : list tree.    (* children of the bucket directory *)
   Variable delim : bool.         (* delimiter == "/" *)
 
+  (* the `for { resp, recvErr := stream.Recv() ... }` loop over the entries the filer
+     streamed; `rec D' maxKeys'` is the recursive call
+     doListFilerEntries(client, dir+"/"+entry.Name, "", maxKeys', "", delimiter, eachEntryFn) *)
+  Fixpoint loop (rec : list string -> Z -> res) (D : list string) (maxKeys1 : Z)
+           (es : list tree) (items : list item) (counter : Z) (trunc : bool) (next : string)
+           {struct es} : res :=
+    match es with
+    | [] => mk_res items counter trunc next                         (* io.EOF *)
+    | e :: es' =>
+        if (counter >=? maxKeys1)%Z then mk_res items counter true next
+        else
+          match e with
+          | Dir n _ =>
+              if n =? uploads then loop rec D maxKeys1 es' items counter trunc n
+              else if negb delim then
+                let r := rec (D ++ [n]) (maxKeys1 - counter)%Z in
+                let items' := items ++ r_items r in
+                let counter' := (counter + r_count r)%Z in
+                let next' := (n ++ "/" ++ r_next r)%string in
+                if r_trunc r then mk_res items' counter' true next'
+                else loop rec D maxKeys1 es' items' counter' trunc next'
+              else if negb ae && negb (has_file (resolve rootk (D ++ [n])))
+              then loop rec D maxKeys1 es' items counter trunc n   (* isDirectoryAllEmpty: skipped (and deleted) *)
+              else loop rec D maxKeys1 es' (items ++ [ICP (D ++ [n])]) (counter + 1)%Z trunc n
+          | File n => loop rec D maxKeys1 es' (items ++ [IKey (D ++ [n])]) (counter + 1)%Z trunc n
+          end
+    end.
+
   Fixpoint do_list (fuel : nat) (D : list string) (prefix : string) (maxKeys : Z) (marker : string) : res :=
     match fuel with
     | O => empty_res
@@ -142,31 +170,27 @@ Section DoList.
           end in
         (* Limit: uint32(maxKeys + 1) *)
         let entries := list_entries (resolve rootk D) prefix marker1 (Z.to_nat (maxKeys1 + 1)) in
-        (fix loop (es : list tree) (items : list item) (counter : Z) (trunc : bool) (next : string)
-             {struct es} : res :=
-           match es with
-           | [] => mk_res items counter trunc next                         (* io.EOF *)
-           | e :: es' =>
-               if (counter >=? maxKeys1)%Z then mk_res items counter true next
-               else
-                 match e with
-                 | Dir n _ =>
-                     if n =? uploads then loop es' items counter trunc n
-                     else if negb delim then
-                       let r := do_list f (D ++ [n]) "" (maxKeys1 - counter)%Z "" in
-                       let items' := items ++ r_items r in
-                       let counter' := (counter + r_count r)%Z in
-                       let next' := (n ++ "/" ++ r_next r)%string in
-                       if r_trunc r then mk_res items' counter' true next'
-                       else loop es' items' counter' trunc next'
-                     else if negb ae && negb (has_file (resolve rootk (D ++ [n])))
-                     then loop es' items counter trunc n   (* isDirectoryAllEmpty: skipped (and deleted) *)
-                     else loop es' (items ++ [ICP (D ++ [n])]) (counter + 1)%Z trunc n
-                 | File n => loop es' (items ++ [IKey (D ++ [n])]) (counter + 1)%Z trunc n
-                 end
-           end) entries items0 0%Z trunc0 next0
+        loop (fun D' m' => do_list f D' "" m' "") D maxKeys1 entries items0 0%Z trunc0 next0
     end.
 End DoList.
+
+(* ---------- the reference lister: the whole listing of a directory, no budget ---------- *)
+
+Section Ref.
+  Variable ae : bool.
+  Variable delim : bool.
+
+  Fixpoint ref_tree (D : list string) (t : tree) : list item :=
+    match t with
+    | File n => [IKey (D ++ [n])]
+    | Dir n k =>
+        if n =? uploads then []
+        else if delim then (if ae || existsb tree_has_file k then [ICP (D ++ [n])] else [])
+        else flat_map (ref_tree (D ++ [n])) k
+    end.
+
+  Definition ref_forest (D : list string) (kids : list tree) : list item := flat_map (ref_tree D) kids.
+End Ref.
 
 (* ---------- listFilerEntries ---------- *)
 
@@ -179,6 +203,12 @@ Definition strip_leading_empty (D : list string) : list string :=
   match D with EmptyString :: r => r | _ => D end.
 
 Definition req_dir (p : string) : list string := strip_leading_empty (fst (split_prefix p)).
+
+(* the reference listing for a request: the entries of the prefix directory that carry
+   the name prefix, expanded *)
+Definition ref_list (ae : bool) (rootk : list tree) (prefix : string) (delim : bool) : list item :=
+  ref_forest ae delim (req_dir prefix)
+             (filter (fun t => String.prefix (snd (split_prefix prefix)) (tname t)) (resolve rootk (req_dir prefix))).
 
 Record page := mk_page {
   pg_keys : list string;
